@@ -24,6 +24,14 @@ Definition ecls_of (e : err) : ecls :=
 Global Instance ecls_eq_dec : EqDecision ecls.
 Proof. solve_decision. Defined.
 
+(** a negative σ in the two ufloat forms is refused by [uncertainties] itself (its own
+    exception class NegativeStdDev), in every other form by pint's ValueError *)
+Definition ctor_ecls (c : ctor) (e : err) : ecls :=
+  match c, e with
+  | (CUfloat _ _ _ | CQtyU _ _ _), EValue => XNegStd
+  | _, _ => ecls_of e
+  end.
+
 (** ** running magnitude bounds for float evaluation (see the header) *)
 Definition aabs (a : aff) : aff := Aff (Qcabs (nom a)) (Qcabs <$> der a).
 Definition babs_affine (c : Qc * Qc) (B : aff) : aff :=
@@ -153,7 +161,7 @@ Section WithReg.
         match ctor_norm r c, e with
         | Ok (v, s, u), CTOk v' s' u' =>
             close rtol v' v (Qcabs v) && close rtol s' s (Qcabs s) && uc_eqb u u'
-        | Err x, CTErr y => bool_decide (ecls_of x = y)
+        | Err x, CTErr y => bool_decide (ctor_ecls c x = y)
         | _, _ => false
         end
     | KAccess v s u dst value error rel =>
